@@ -70,7 +70,8 @@ THEOREMS = [
 ]
 PARTIAL = {
     'transform_with_cleanups': 'transform_id/comp/inv, energy and moduli invariance and system_invariant_* are proved for '
-    'the exact tensor rotation `rot` (= the generated einsums); `transform_is_rot` states transform = axes_check, rot, '
+    'the exact tensor rotation `rot` (= the generated einsums); `transform_is_rot` / `transform_rotates_by_unit_axes` (axis '
+    'vectors of any length: rot by their unit vectors) state transform = axes_check, rot, '
     'relative clean-up (|C/Cmax| < tol), Cijkl setter. With the 1e-8/1e-9 clean-ups the group laws hold on the '
     'implementation only up to those thresholds: checked by the tie and the oracle (atol 2.5e-8*max), not a theorem',
     'normalized_with_setter_cleanup': 'through the Cij setter (zeroing of entries <= 1e-9*max included) normalisation is '
@@ -85,6 +86,9 @@ PARTIAL = {
     'implementation the rotated tensor is symmetric only to rounding and the Cijkl / Cij setters compare with ABSOLUTE '
     'atol (numpy default 1e-8 / 1e-9), so what they would refuse is not scale free: the float behaviour at '
     '2^-480..2^480 is checked by the scale sweeps of tie and oracle',
+    'compliance_closed_forms': 'the 6x6 inverse is written out and proved two-sided (hence unique) for the isotropic, cubic '
+    'and five-constant hexagonal templates (isoS, cubicS, hexS); for rhombohedral, tetragonal, orthorhombic, monoclinic, '
+    'triclinic and general tensors it stays a parameter with the hypothesis C*S = 1 and S*C = 1',
     'object_model': 'object_* theorems are about the Lean object model (state = one matrix; reads are functions of it); '
     'that the class has no other state (caches, aliased arrays) is what the `seq` correspondence and the read-order / '
     'set-sequence oracle check on every run, not a theorem about the Python object',
